@@ -393,6 +393,12 @@ func (e *Engine) step(p *partition, row map[string]any, ts, seq int64) []map[str
 			}
 			continue
 		}
+		if !e.lazy && hasAccept(r.states) {
+			// r is a match as it stands and is being extended (A (B C)?, after A, on B):
+			// keep it as the candidate for its start, or it is lost when the
+			// extension fails later. pending keeps only the longest per start.
+			completions = append(completions, r)
+		}
 		for _, s := range succ {
 			if isComplete(s.states) {
 				completions = append(completions, s)
